@@ -83,6 +83,10 @@ BATTERY: list[tuple[str, str, str, list[list[str]]]] = [
     ("lp_loop_var_after", "n: int", "i = -1\n    for i in range(n):\n        pass\n    return i", [["0", "1", "4", "-2"]]),
     ("lp_loop_var_after2", "a: int, b: int", "i = -1\n    for i in range(a, b):\n        pass\n    return i", [["3"], ["3", "0", "5"]]),
     ("lp_loop_var_after_list", "l: list[int]", "x = -1\n    for x in l:\n        pass\n    return x", [LI]),
+    ("lp_reassign_list", "l: list[int]", "out: list[int] = []\n    for x in l:\n        out.append(x)\n        l = [7, 8, 9]\n    return out", [["[1, 2, 3]", "[1]"]]),
+    ("lp_reassign_str", "s: str", "out: list[str] = []\n    for c in s:\n        out.append(c)\n        s = 'xyz'\n    return out", [["'abc'", "'a'"]]),
+    ("lp_reassign_tuple", "t: tuple[int, ...]", "out: list[int] = []\n    for x in t:\n        out.append(x)\n        t = (7, 8, 9)\n    return out", [["(1, 2, 3)"]]),
+    ("lp_reassign_dict", "d: dict[str, int]", "out: list[str] = []\n    for k in d:\n        out.append(k)\n        d = {'p': 1, 'q': 2, 'r': 3}\n    return out", [["{'a': 1, 'b': 2}"]]),
     ("lp_dict_keys", "d: dict[str, int]", "return [k for k in d]", [DS]),
     ("lp_dict_items", "d: dict[str, int]", "return [(k, v) for k, v in d.items()]", [DS]),
     ("lp_dict_values", "d: dict[str, int]", "return [v for v in d.values()]", [DS]),
@@ -251,6 +255,10 @@ def known_shape(name: str, expr: str, interp: str, comp: str) -> str | None:
     if name.startswith("lp_loop_var_after") and interp == "ok -1" and comp in ("ok 0", "ok 3"):
         # ForRange.init assigns the loop variable from the start value before the first comparison
         return "range-loop-variable-assigned-when-range-is-empty"
+    if name in ("lp_reassign_list", "lp_reassign_tuple") and interp in ("ok [1, 2, 3]", "ok [1]") and comp == "ok [1, 8, 9]":
+        return "for-loop-sequence-variable-rebound-in-body"
+    if name == "lp_reassign_str" and interp in ("ok ['a', 'b', 'c']", "ok ['a']") and comp == "ok ['a', 'y', 'z']":
+        return "for-loop-sequence-variable-rebound-in-body"
     if name == "ex_order" and interp != comp and interp.replace("True", "False") == comp:
         return "raise-from-clause-ignored"
     if name == "ex_cause" and interp != comp and comp == "ok ('NoneType', False, 'KeyError')":
